@@ -260,18 +260,28 @@ def rule_a11_offset(ctx):
     ctx.ob('A11.width', f, 'fields fit their widths', widths[0] >= 2 and widths[1] >= 2, 'widths %s for 0..23 / 0..59' % widths, node=fx)
     ctx.ob('A11.width', f, 'two numeric fields', len(fields) == 2, '', node=fx, nontrivial=False)
     # ---- sign test on a signed quantity
-    tests = [t for t in cfg.stmt_nodes() if t.kind == 'test' and isinstance(t.ast.test, ast.Compare) and isinstance(t.ast.test.left, ast.Name) and
-             isinstance(t.ast.test.ops[0], (ast.Lt, ast.LtE, ast.Gt, ast.GtE)) and const_int(t.ast.test.comparators[0]) == 0]
-    if not tests:
+    # comparisons of a local with 0, wherever they stand (an `if`, a conditional expression)
+    cmps = []
+    for n in cfg.stmt_nodes():
+        for e in node_exprs(n):
+            for x in ast.walk(e):
+                if isinstance(x, ast.Compare) and len(x.ops) == 1 and isinstance(x.left, ast.Name) and \
+                        isinstance(x.ops[0], (ast.Lt, ast.LtE, ast.Gt, ast.GtE)) and const_int(x.comparators[0]) == 0:
+                    cmps.append((n, x))
+    if not cmps:
         ctx.ob('A11.sign', f, 'sign of the offset is tested', False, 'no `<offset quantity> < 0` test')
-    for t in tests:
-        var = t.ast.test.left.id
-        defs = rd[t].get(var, set())
+    seen_vars = set()
+    for n, x in cmps:
+        var = x.left.id
+        if var in seen_vars:
+            continue
+        seen_vars.add(var)
+        defs = rd[n].get(var, set())
         srcs = [norm(d.ast.value) for d in defs if d.kind == 'stmt' and isinstance(d.ast, ast.Assign)]
         unsigned = [s_ for s_ in srcs if s_.endswith('.seconds') and '.days' not in s_ and 'total_seconds' not in s_]
         ctx.ob('A11.sign', f, 'the `< 0` test that chooses the sign looks at a signed quantity', not unsigned and bool(srcs),
                'compared value is defined as %s; timedelta.seconds is never negative (negative offsets have days == -1), so the '
-               'minus sign can never be written' % srcs if unsigned else 'defined as %s' % srcs, node=t.ast)
+               'minus sign can never be written' % srcs if unsigned else 'defined as %s' % srcs, node=x)
 
 
 def rule_a11_trim(ctx):
